@@ -268,6 +268,24 @@ pub fn run(v: &Value) -> Value {
                     }
                 }
                 outs.push(json!({"slept": ms}));
+            } else if let Some(f) = step.get("fault") {
+                // run a statement with a fault armed at (operator index, item index), or just observe the operators
+                let Some(dbr) = db.as_ref() else {
+                    outs.push(json!({"err": "database is closed"}));
+                    continue;
+                };
+                let sql = f["sql"].as_str().unwrap_or("");
+                let armed = f["op"].as_u64().map(|o| (o as usize, f["chunk"].as_u64().unwrap_or(0) as usize, f["panic"].as_bool() == Some(true)));
+                risinglight::verif::fault::begin(armed);
+                let fut = std::panic::AssertUnwindSafe(dbr.run(sql));
+                let r = futures::FutureExt::catch_unwind(fut).await;
+                let (ops, hit) = risinglight::verif::fault::end();
+                let ops: Vec<Value> = ops.iter().map(|(n, c)| json!([n, c])).collect();
+                outs.push(match r {
+                    Ok(Ok(chunks)) => json!({"ok": chunks_to_json(&chunks), "ops": ops, "hit": hit}),
+                    Ok(Err(e)) => json!({"err": errstr(e), "ops": ops, "hit": hit}),
+                    Err(p) => json!({"panic": panic_msg(p), "ops": ops, "hit": hit}),
+                });
             } else if let Some(sql) = step["typed"].as_str() {
                 // a query together with its static output types and the variants of the arrays it returns
                 let Some(dbr) = db.as_ref() else {
